@@ -55,6 +55,22 @@ Theorem C01_trajectory_mirror :
 Proof. exact trajectory_mirror. Qed.
 Print Assumptions C01_trajectory_mirror.
 
+(* mirror rebuild, the statement behind the implementation-side oracle of the check: from every
+   state s of the trajectory [lo, hi] reached from a, the directions `mirror_dirs lo depth s`
+   (doubling j goes forward iff bit j of s - lo is 0) with maxdepth = depth re-create exactly
+   [lo, hi] at the same depth; the rebuild stops for a U-turn iff [lo, hi] itself turns, which it
+   does not when the original was not stopped by a U-turn *)
+Theorem C01_mirror_rebuild :
+  forall (turn : Z -> Z -> bool) (maxdepth : nat) (a : Z) (ds : list bool) (lo hi : Z) (depth : nat) (flag : bool),
+    dshape turn maxdepth a ds = Some (lo, hi, depth, flag) ->
+    forall s, (lo <= s <= hi)%Z ->
+      mirror_dirs lo depth s = path lo depth s /\
+      length (mirror_dirs lo depth s) = depth /\
+      dshape turn depth s (mirror_dirs lo depth s) = Some (lo, hi, depth, top_turn turn lo depth) /\
+      (flag = false -> top_turn turn lo depth = false).
+Proof. exact mirror_rebuild. Qed.
+Print Assumptions C01_mirror_rebuild.
+
 Theorem C01_direction_sequence_mass :
   forall (wt : Z -> Q) (turn : Z -> Z -> bool) (maxdepth : nat), (forall i, 0 < wt i)%Q ->
   forall (a : Z) (ds : list bool),
